@@ -42,18 +42,18 @@ const FAM_NOEQ: u8 = 2;
 const LRU_DECLARED: usize = 2;
 
 #[salsa::tracked(returns(copy))]
-fn plain(db: &dyn salsa::Database, k: Inp) -> u8 {
-    interp(db, FAM_PLAIN, k)
+fn plain(db: &dyn salsa::Database, k: Inp) -> V {
+    V(interp(db, FAM_PLAIN, k))
 }
 
 #[salsa::tracked(returns(copy), lru = 2)]
-fn lru_fn(db: &dyn salsa::Database, k: Inp) -> u8 {
-    interp(db, FAM_LRU, k)
+fn lru_fn(db: &dyn salsa::Database, k: Inp) -> V {
+    V(interp(db, FAM_LRU, k))
 }
 
 #[salsa::tracked(returns(copy), no_eq)]
-fn noeq(db: &dyn salsa::Database, k: Inp) -> u8 {
-    interp(db, FAM_NOEQ, k)
+fn noeq(db: &dyn salsa::Database, k: Inp) -> V {
+    V(interp(db, FAM_NOEQ, k))
 }
 
 // ------------------------------------------------------------------ DSL
@@ -79,6 +79,23 @@ struct CaseData {
 static CASE: RwLock<Option<Arc<CaseData>>> = RwLock::new(None);
 static CELLS: [AtomicU8; 8] = [const { AtomicU8::new(0) }; 8];
 static PCELLS: [AtomicU8; 8] = [const { AtomicU8::new(0) }; 8];
+/// event-callback fault: -1 = disarmed, n >= 0 = panic at the (n+1)-th modelled event
+static EVFAULT: std::sync::atomic::AtomicI64 = std::sync::atomic::AtomicI64::new(-1);
+const EQ_FAULT: usize = 6;
+
+/// Result type of every tracked function: a `u8` whose `PartialEq` (used by salsa for
+/// backdating) is user code that can be made to panic.
+#[derive(Clone, Copy, Debug, Hash)]
+struct V(u8);
+impl PartialEq for V {
+    fn eq(&self, other: &Self) -> bool {
+        if PCELLS[EQ_FAULT].load(Ordering::SeqCst) != 0 {
+            panic!("verif-injected panic");
+        }
+        self.0 == other.0
+    }
+}
+impl Eq for V {}
 
 fn case_data() -> Arc<CaseData> {
     CASE.read().unwrap().as_ref().unwrap().clone()
@@ -96,9 +113,9 @@ fn interp(db: &dyn salsa::Database, fam: u8, k: Inp) -> u8 {
 fn call_fam(db: &dyn salsa::Database, cd: &CaseData, fam: u8, key: usize) -> u8 {
     let k = cd.inputs[key];
     match fam {
-        FAM_PLAIN => plain(db, k),
-        FAM_LRU => lru_fn(db, k),
-        FAM_NOEQ => noeq(db, k),
+        FAM_PLAIN => plain(db, k).0,
+        FAM_LRU => lru_fn(db, k).0,
+        FAM_NOEQ => noeq(db, k).0,
         _ => panic!("harness: unknown family {fam}"),
     }
 }
@@ -449,6 +466,14 @@ fn run_case(line: &str) {
             match e.kind {
                 salsa::EventKind::WillExecute { .. }
                 | salsa::EventKind::DidValidateMemoizedValue { .. } => {
+                    // the event callback is user code: the armed fault fires here (once)
+                    let n = EVFAULT.load(Ordering::SeqCst);
+                    if n == 0 {
+                        EVFAULT.store(-1, Ordering::SeqCst);
+                        panic!("verif-injected panic");
+                    } else if n > 0 {
+                        EVFAULT.store(n - 1, Ordering::SeqCst);
+                    }
                     log2.lock().unwrap().push(e);
                 }
                 _ => {}
@@ -458,6 +483,7 @@ fn run_case(line: &str) {
     for c in CELLS.iter().chain(PCELLS.iter()) {
         c.store(0, Ordering::SeqCst);
     }
+    EVFAULT.store(-1, Ordering::SeqCst);
     let n_inputs = ni.max(nk);
     let mut inputs = Vec::new();
     for i in 0..n_inputs {
@@ -521,6 +547,11 @@ fn run_case(line: &str) {
             }
             "setpanic" => {
                 PCELLS[l[1].int() as usize].store(l[2].int() as u8, Ordering::SeqCst);
+                Ok(0)
+            }
+            "evfault" => {
+                let n = if l[1].is_atom("off") { -1 } else { l[1].int() };
+                EVFAULT.store(n, Ordering::SeqCst);
                 Ok(0)
             }
             "get" => {
